@@ -18,10 +18,10 @@ From Quiver Require Import Base.
 
 (* ---------------------------------------------------------------- values (value.rs:12-33) *)
 
-(* value.rs:12  enum Binary { Constant(usize), Heap(usize) } *)
+(* value.rs:14  enum Binary { Constant(usize), Heap(usize) } *)
 Inductive binref := BConst (k : nat) | BHeap (i : nat).
 
-(* value.rs:20  enum Value *)
+(* value.rs:22  enum Value *)
 Inductive value :=
 | VInt (z : Z)                          (* Integer(BigInt) *)
 | VBin (b : binref)                     (* Binary(Binary) *)
@@ -100,14 +100,14 @@ Fixpoint canon_go (by_shape : list (shape * nat)) (id : nat) (ts : list tuple_in
 
 Definition compute_canonical (ts : list tuple_info) : list nat := canon_go [] 0%nat ts.
 
-(* executor.rs:2707  fn canonical_tuple(&self, tuple_id) =
+(* executor.rs:2709  fn canonical_tuple(&self, tuple_id) =
      self.canonical_tuples.get(tuple_id).copied().unwrap_or(tuple_id) *)
 Definition canonical_tuple (P : tables) (t : nat) : nat :=
   match nth_error (canonical P) t with Some c => c | None => t end.
 
 (* ---------------------------------------------------------------- values_equal *)
 
-(* executor.rs:2716-2757, the (Value::Binary(a), Value::Binary(b)) arm. *)
+(* executor.rs:2719-2760, the (Value::Binary(a), Value::Binary(b)) arm. *)
 Definition bin_equal (P : tables) (a b : binref) : bool :=
   match a, b with
   | BConst ia, BConst ib =>
@@ -131,7 +131,7 @@ Definition bin_equal (P : tables) (a b : binref) : bool :=
       end
   end.
 
-(* executor.rs:2714  fn values_equal(&self, a: &Value, b: &Value) -> bool
+(* executor.rs:2716  fn values_equal(&self, a: &Value, b: &Value) -> bool
    `zip_all` is `xs.iter().zip(ys.iter()).all(|(a, b)| self.values_equal(a, b))`: it stops at the
    shorter list (the length test before it is what makes the lengths agree). *)
 Fixpoint values_equal (P : tables) (a b : value) {struct a} : bool :=
@@ -180,7 +180,7 @@ Definition handle_equal (P : tables) (count : nat) (stack : list value) : outcom
   else
     let values := rev (firstn count stack) in
     match values with
-    | [] => Panic 1943
+    | [] => Panic 1943                      (* `let first = &values[0];` executor.rs:1943 *)
     | first :: _ =>
         let all_equal := forallb (values_equal P first) values in
         Val ((if all_equal then ok_value else nil_value) :: skipn count stack)
@@ -190,7 +190,7 @@ Definition handle_equal (P : tables) (count : nat) (stack : list value) : outcom
 Definition is_nil (v : value) : bool :=
   match v with VTuple O [] => true | _ => false end.
 
-(* executor.rs handle_not: nil -> Ok, anything else -> nil *)
+(* executor.rs:1962  handle_not: nil -> Ok, anything else -> nil *)
 Definition handle_not (stack : list value) : outcome (list value) :=
   match stack with
   | [] => Err StackUnderflow
@@ -199,7 +199,7 @@ Definition handle_not (stack : list value) : outcome (list value) :=
 
 (* pattern.rs:213-262 generate_pattern_code: every pin (`&x`: ..Load x; Equal(2)), literal
    (..Constant k; Equal(2)) and repeated binder (..Get path; Pick 1; Get path'; Equal(2)) is
-   followed by `Not` and a JumpIf to the failure address; JumpIf (executor.rs handle_jump_if)
+   followed by `Not` and a JumpIf to the failure address; JumpIf (executor.rs:1685 handle_jump_if)
    jumps exactly when the popped value is not nil. The requirement is met -- the pattern goes
    on -- iff that jump is NOT taken. `a` is the value pushed first, `b` the one on top. *)
 Definition pin_matches (P : tables) (a b : value) : outcome bool :=
@@ -308,7 +308,7 @@ Fixpoint wf_valueb (P : tables) (v : value) : bool :=
    (execute.rs:58, environment.rs:968: always recomputed over the full table) *)
 Definition wf_tables (P : tables) : Prop := canonical P = compute_canonical (tuples P).
 
-(* executor.rs:1070  update_program: constants/tuples are appended, canonical_tuples replaced by
+(* executor.rs:1073  update_program: constants/tuples are appended, canonical_tuples replaced by
    the table recomputed over the whole (grown) tuple list; the heap may have grown too. *)
 Definition update_tables (P : tables) (new_consts : list constant) (new_heap : list (list Z))
            (new_tuples : list tuple_info) : tables :=
